@@ -330,7 +330,14 @@ Record InvA (s : est) : Prop := {
   b_sent : nlocal s = ncl (out s) + cz c_send (clos s) + cz (gl c_send) (gors s) }.
 
 Lemma stepA s w : InvA s -> InvA (step s w).
-Proof. intros [H1 [H2 H2'] H3 H4]. cases s w; brk; constructor; fin s. Qed.
+Proof.
+  intros [H1 [H2 H2'] H3 H4]. constructor; [| split | |].
+  - clear H3 H4. cases s w; brk; fin s.
+  - clear H1 H2' H3 H4. cases s w; brk; fin s.
+  - clear H1 H2 H3 H4. cases s w; brk; fin s.
+  - clear H4. cases s w; brk; fin s.
+  - clear H1 H3. cases s w; brk; fin s.
+Qed.
 
 (* session table, returned Close() calls, handled close notifications *)
 Record InvT (s : est) : Prop := {
